@@ -1,10 +1,11 @@
 (* C20 -- documentation tree is structurally faithful; its HTML well-formed and escaped.
-   PARTIAL: the HTML writer is modelled (byte-for-byte correspondence with write_tree_html) and proved;
-   the assembly of the tree (Schema.to_tree), which is keyed by str() of path parts, is checked by the
-   model-free structural oracle of the harness only. *)
-From Coq Require Import ZArith NArith List Bool String.
-From Valida Require Import Html.
-From Valida.Proofs Require Import C20Proof.
+   The HTML writer is modelled (byte-for-byte correspondence with write_tree_html) and proved.
+   The assembly of the tree (Schema.to_tree) is modelled in Tree.v over per-rule facts computed by the library's
+   own helpers (strings of the path parts, always-applicable key / type conditions and their text) and compared with
+   to_tree on every generated schema (flat, nested, sub-tree root); the theorems at the end are about that model. *)
+From Coq Require Import ZArith NArith List Bool String Permutation.
+From Valida Require Import Py Html Tree.
+From Valida.Proofs Require Import C20Proof TreeProof.
 Import ListNotations.
 Local Open Scope string_scope.
 
@@ -34,3 +35,70 @@ Theorem C20_code_clean : forall s, no_raw_meta s = true ->
   Forall (fun t => match t with TText x => no_raw_meta x = true | _ => True end) (code_toks s).
 Proof. exact code_toks_clean. Qed.
 Print Assumptions C20_code_clean.
+
+(* ---- the assembly of the tree (Tree.v) ---- *)
+
+(* each rule appears exactly once, with its condition and doc (rules with distinct paths) *)
+Theorem C20_tree_each_rule_once : forall rs l,
+  NoDup (map rf_path_str rs) ->
+  flat_tree [] [] rs = Ok l ->
+  forall rf, In rf rs ->
+  exists i d,
+    nth_error l i = Some d
+    /\ dget "path_str" d = Some (VTuple (map VStr (rf_path_str rf)))
+    /\ dget "condition" d = Some (rf_cond rf)
+    /\ dget "doc" d = Some (rf_doc rf)
+    /\ forall j d', nth_error l j = Some d' -> dget "path_str" d' = Some (VTuple (map VStr (rf_path_str rf))) -> j = i.
+Proof. exact T2_each_rule_once. Qed.
+
+(* every node's parent precedes it and is its path prefix; a node without parent is at the top *)
+Theorem C20_tree_parents : forall rs l,
+  flat_tree [] [] rs = Ok l ->
+  forall i d, nth_error l i = Some d ->
+  exists k p,
+    dget "path_str" d = Some (VTuple (map VStr k))
+    /\ dget "parent" d = Some (VInt p)
+    /\ ((p = (-1)%Z /\ removelast k = [])
+        \/ ((0 <= p < Z.of_nat i)%Z /\ removelast k <> k
+            /\ exists dp, nth_error l (Z.to_nat p) = Some dp
+                 /\ dget "path_str" dp = Some (VTuple (map VStr (removelast k))))).
+Proof. exact T3_flat_tree_parents. Qed.
+
+(* the flat and the nested form contain the same nodes (at any depth) *)
+Theorem C20_tree_flat_nested_same_nodes : forall rs vf vn,
+  run_tree [] [] false rs = Ok vf -> run_tree [] [] true rs = Ok vn ->
+  Permutation (all_paths vn) (all_paths vf).
+Proof. exact T4_run_tree_same_nodes. Qed.
+
+(* a key is flagged required exactly when an always-applicable required_keys condition of the rule at its parent path
+   names it, whatever else (allowed_keys, other rules, the order of the conditions) names it too *)
+Theorem C20_tree_required : forall rs l,
+  flat_tree [] [] rs = Ok l ->
+  forall d k s, In d l -> dget "path_str" d = Some (VTuple (map VStr (k ++ [s]))) ->
+    (dget "required" d = Some (VBool true) <->
+       exists rf key, In rf rs /\ rf_path_str rf = k /\ In (key, Some s, true) (rf_keys rf))
+    /\ (dget "required" d = None <->
+       forall rf key b, In rf rs -> rf_path_str rf = k -> ~ In (key, Some s, b) (rf_keys rf)).
+Proof. exact T5_flat_tree_required. Qed.
+
+(* produced without error when the paths are prefix-closed *)
+Theorem C20_tree_total : forall rs m,
+  steps [] [] rs = Ok m -> prefix_closed (map fst m) -> exists l, flat_tree [] [] rs = Ok l.
+Proof. exact flat_tree_total. Qed.
+
+(* a sub-tree root: the same statement on the sub-tree *)
+Theorem C20_tree_subtree : forall from_str from_simple rs l,
+  NoDup (map (eff_ps from_str) (filter (pref from_str) rs)) ->
+  flat_tree from_str from_simple rs = Ok l ->
+  forall rf, In rf rs -> pref from_str rf = true ->
+  exists i d,
+    nth_error l i = Some d
+    /\ dget "path_str" d = Some (VTuple (map VStr (sub_path from_str from_simple rf)))
+    /\ dget "condition" d = Some (rf_cond rf)
+    /\ dget "doc" d = Some (rf_doc rf)
+    /\ forall j d', nth_error l j = Some d' ->
+         dget "path_str" d' = Some (VTuple (map VStr (sub_path from_str from_simple rf))) -> j = i.
+Proof. exact T2_each_rule_once_subtree. Qed.
+
+Print Assumptions C20_tree_each_rule_once. Print Assumptions C20_tree_parents. Print Assumptions C20_tree_flat_nested_same_nodes.
+Print Assumptions C20_tree_required. Print Assumptions C20_tree_total. Print Assumptions C20_tree_subtree.
